@@ -1,7 +1,7 @@
 (* Single entry point of the extracted model runner: name + argument -> observation. *)
 From Coq Require Import List NArith ZArith Bool.
 From Coq Require Import QArith.
-From NV Require Import Prelude.Str Prelude.Res Prelude.Sx Model.Url Model.Redirect Model.Bucket Model.Ip Model.Titan Model.ServerProto Model.Proxy Model.ClientProto Model.Tofu Model.Session Model.Fs Model.Static Model.CertAuth.
+From NV Require Import Prelude.Str Prelude.Res Prelude.Sx Model.Url Model.Redirect Model.Bucket Model.Ip Model.Titan Model.ServerProto Model.Proxy Model.ClientProto Model.Tofu Model.Session Model.Fs Model.Static Model.CertAuth Model.Certs.
 From NV Require Spec.C19 Spec.C16 Spec.C10 Spec.C09 Spec.ServerTrace Spec.C01 Spec.C04 Spec.C07 Spec.C15 Spec.C08 Spec.C17 Spec.C13 Spec.C03 Spec.C12 Spec.C11 Spec.C18 Spec.C02 Spec.C14 Spec.C05.
 Import ListNotations.
 Open Scope N_scope.
@@ -426,5 +426,11 @@ Definition dispatch (name : str) (arg : sx) : sx :=
   else if eqb name (lit "C05.ok") then
     (* arg: rules fp status delivered_location(opt) *)
     sB (Spec.C05.ok (map read_rule (as_list (nth_sx 0 arg))) (read_ostr (nth_sx 1 arg)) (as_Z (nth_sx 2 arg)) (read_ostr (nth_sx 3 arg)))
+  else if eqb name (lit "certs.fingerprint_of_digest") then
+    (* arg: algorithm digest(bytes) -> the fingerprint string the model builds from that digest, or its refusal.
+       The oracles are instantiated trivially (certificate = its digest, der / sha256 / sha1 = identity): what is
+       compared with the implementation is the string construction - prefix, separator, hex_lower *)
+    show_res (fun s => [A s])
+      (fingerprint (fun c : str => c) (fun x => x) (fun x => x) (as_str (nth_sx 1 arg)) (as_str (nth_sx 0 arg)))
   else L [sT "unknown-model"; A name].
 Close Scope N_scope.
